@@ -27,7 +27,9 @@ def run(db, chk) -> None:
     from ..specs.discipline import check_facade_stateless
     check_facade_stateless(db, chk, "C08.R-facade-stateless", ['critical_path_analysis'])
     from ..specs.endcoherence import check_time_dtype
-    check_time_dtype(db, chk, "C08.R8-time-dtype")          # node times and edge weights are differences of ts / ts + dur of the loaded frame
+    check_time_dtype(db, chk, "C08.R8-time-dtype")
+    from .c01 import _rounding
+    _rounding(db, chk, rule="C08.R9-inward-rounding")        # fractional timestamps are rounded inward, so nesting / disjointness of events (the well-formedness the graph relies on) survives loading          # node times and edge weights are differences of ts / ts + dur of the loaded frame
     from ..specs.discipline import check_stateless
     check_stateless(db, chk, "C08.R-stateless", ['hta.analyzers.critical_path_analysis'])      # the result is a function of the arguments: no state kept between calls, caller's Trace untouched
     chk.floor("C08.R-stateless", 4)
